@@ -728,6 +728,9 @@ def rule_ampm(chk, idx):
 # ---------------------------------------------------------------------------------------------------
 # rule 5: to_pm / all_str_to_pm
 
+INPUT = '<input>'
+
+
 def eval_int(node, env, ev):
     if isinstance(node, ast.Name):
         if node.id in env:
@@ -746,7 +749,24 @@ def eval_int(node, env, ev):
             return a % b
         if isinstance(node.op, ast.Mult):
             return a * b
-        raise ValueError('operator')
+        if isinstance(node.op, ast.FloorDiv):
+            return a // b
+        if isinstance(node.op, ast.LShift):
+            return a << b
+        if isinstance(node.op, ast.RShift):
+            return a >> b
+        raise ValueError('operator ' + type(node.op).__name__)
+    if isinstance(node, ast.UnaryOp) and isinstance(node.op, (ast.USub, ast.UAdd)):
+        v = eval_int(node.operand, env, ev)
+        return -v if isinstance(node.op, ast.USub) else v
+    if isinstance(node, ast.Call) and isinstance(node.func, ast.Name) and node.func.id == 'int' and len(node.args) == 1 \
+            and not node.keywords:
+        try:
+            return int(eval_int(node.args[0], env, ev))
+        except (ValueError, KeyError, TypeError):
+            if INPUT in env:        # int(<text of the input>) is the input hour itself
+                return env[INPUT]
+            raise
     if isinstance(node, ast.IfExp):
         return eval_int(node.body if eval_int(node.test, env, ev) else node.orelse, env, ev)
     if isinstance(node, ast.Compare):
@@ -795,14 +815,21 @@ def _interp(stmts, env, ev, seed, where):
             value = s.value
             if value is None:
                 continue
-            if seed[0] is None and isinstance(value, ast.Call) and isinstance(value.func, ast.Name) and value.func.id == 'int' \
-                    and len(targets) == 1 and isinstance(targets[0], ast.Name):
+            if seed[0] is None and len(targets) == 1 and isinstance(targets[0], ast.Name) and \
+                    any(isinstance(n, ast.Call) and isinstance(n.func, ast.Name) and n.func.id == 'int' for n in ast.walk(value)):
+                # first `x = <int expression over int(<input text>)>` binds the hour variable
+                env[INPUT] = seed[1]
+                try:
+                    v = eval_int(value, env, ev)
+                except (ValueError, KeyError, ZeroDivisionError, TypeError) as e:
+                    raise _Unreadable('%s: `%s` is not an int expression the interpreter can evaluate (%s)'
+                                      % (where, ast.unparse(s), e))
                 seed[0] = targets[0].id
-                env[seed[0]] = seed[1]
+                env[seed[0]] = v
                 continue
             for t in targets:
                 if isinstance(t, ast.Name):
-                    if _names(value) & set(env) or t.id in env:
+                    if _names(value) & (set(env) - {INPUT}) or t.id in env:
                         try:
                             v = eval_int(value, env, ev)
                             if isinstance(v, bool) or not isinstance(v, int):
@@ -823,7 +850,7 @@ def _interp(stmts, env, ev, seed, where):
                 except (ValueError, KeyError, ZeroDivisionError, TypeError) as e:
                     raise _Unreadable('%s: `%s` (%s)' % (where, ast.unparse(s), e))
         elif isinstance(s, ast.If):
-            touches = bool((_assigned_names(s.body) | _assigned_names(s.orelse)) & set(env)) or \
+            touches = bool((_assigned_names(s.body) | _assigned_names(s.orelse)) & (set(env) - {INPUT})) or \
                 (seed[0] is None and any(isinstance(n, ast.Call) and isinstance(n.func, ast.Name) and n.func.id == 'int'
                                          for n in ast.walk(s)))
             if not touches:
